@@ -65,6 +65,7 @@ class TState:
     self.result = True
     self.thread = None
     self.deliver = True       # may a pending async exception be raised at this point?
+    self.pending_call = None  # callable to run in this thread at its next point (simulated signal handler)
 
 
 # ---- policies ---------------------------------------------------------
@@ -149,7 +150,8 @@ class Sched:
     for s in self.states:
       if s.done:
         continue
-      if (s.pending_exc is not None and s.deliver) or s.cond is None or s.cond():
+      if ((s.pending_exc is not None or s.pending_call is not None) and s.deliver) or \
+          s.cond is None or s.cond():
         en.append(s)
     return en
 
@@ -216,24 +218,35 @@ class Sched:
     st = self.me()
     if st is None or not self.active:
       return True
-    st.deliver = deliver
-    st.cond = cond
-    st.wake_at = None if timeout is None else self.now + max(timeout, 0)
-    st.why = why
-    if st.idx == 0 and self.sigint is not None:
-      self.sigint(self, why)
-    ok = self._handoff(st)
-    if not ok or self.current is not st:
-      st.sem.acquire()
-      if not self.active:
-        raise _Abandon()
-    st.cond = None
-    st.wake_at = None
-    if deliver:
-      exc, st.pending_exc = st.pending_exc, None
-      if exc is not None:
-        raise exc()
-    return st.result
+    wake_at = None if timeout is None else self.now + max(timeout, 0)
+    while True:
+      st.deliver = deliver
+      st.cond = cond
+      st.wake_at = wake_at
+      st.why = why
+      ok = self._handoff(st)
+      if not ok or self.current is not st:
+        st.sem.acquire()
+        if not self.active:
+          raise _Abandon()
+      st.cond = None
+      st.wake_at = None
+      if deliver:
+        exc, st.pending_exc = st.pending_exc, None
+        if exc is not None:
+          raise exc()
+        fn, st.pending_call = st.pending_call, None
+        if fn is not None:
+          fn()                      # simulated signal handler: runs in this thread, may raise
+          if cond is not None and not cond() and (wake_at is None or self.now < wake_at):
+            continue                # the interrupted wait resumes
+          return bool(cond is None or cond())
+      return st.result
+
+  def interrupt(self, idx, fn):
+    """Arrange for fn() to run in thread number idx (0 = main) at its next
+    scheduling point, like a signal handler would."""
+    self.states[idx].pending_call = fn
 
   # ---- run
   def run(self, main_fn, name='main'):
@@ -257,13 +270,18 @@ class Sched:
     finally:
       self.active = False
       uninstall()
-      # release leftover threads so they can unwind
-      for s in self.states:
-        if not s.done:
-          try:
-            s.sem.release()
-          except RuntimeError:
-            pass
+      # release leftover threads so they can unwind, and wait for them: they
+      # would otherwise run concurrently with the next scheduler run and touch
+      # process-global state of the code under test
+      left = [s for s in self.states if not s.done]
+      for s in left:
+        try:
+          s.sem.release()
+        except RuntimeError:
+          pass
+      for s in left:
+        if s.thread is not None and s.thread is not threading.current_thread():
+          _real_join(s.thread, 2.0)
     if self.failure is not None:
       self.failure.sched = self
       raise self.failure
@@ -341,7 +359,7 @@ class CoopLock:
       return True
     if not blocking:
       return False
-    ok = s.yield_('lock.wait', cond=lambda: self.owner is None,
+    ok = s.yield_('lock.wait held-by=%s' % getattr(self.owner, 'name', self.owner), cond=lambda: self.owner is None,
                   timeout=None if timeout is None or timeout < 0 else timeout,
                   deliver=deliver)
     if ok:
